@@ -77,7 +77,7 @@ def _dtype_cls(spec):
                 return S.int64
             if spec is S.pyfloat:
                 return S.float64
-            if spec in S.NP_TYPES:
+            if spec in S.NP_TYPES or spec in (S.str_, S.object_, S.complex128):
                 return spec
             raise TypeError(f"data type {spec.__name__} not understood")
         if spec is bool:
@@ -86,6 +86,12 @@ def _dtype_cls(spec):
             return S.int64
         if spec is float:
             return S.float64
+        if spec is str:
+            return S.str_
+        if spec is complex:
+            return S.complex128
+        if spec is object or spec in (list, tuple, dict, type(None)):
+            return S.object_
         raise TypeError(f"Cannot interpret '{spec}' as a data type")
     if spec is S.py_int:
         return S.int64
@@ -99,6 +105,12 @@ def _dtype_cls(spec):
             return S.BY_NAME[spec]
         if spec in names:
             return names[spec]
+        if spec in ("str", "U", "<U1", "S"):
+            return S.str_
+        if spec in ("object", "O"):
+            return S.object_
+        if spec in ("complex", "complex128", "c16"):
+            return S.complex128
     raise TypeError(f"data type {spec!r} not understood")
 
 
